@@ -69,10 +69,12 @@ public:
     if (!rd(g_sock, r, 600) || r.empty() || r[0] != 'M') _exit(72);
     int n = std::min<int>(len, r.size() - 1);
     memcpy(buf, r.data() + 1, n);
+    if (getenv("C14_DEBUG")) { fprintf(stderr, "[w%d step %ld] recv from %d len %d:", g_index, (long) cvm::step_absolute(), src, n); for (int k = 0; k < n / 8; k++) fprintf(stderr, " %ld/%g", ((long *) buf)[k], ((double *) buf)[k]); fprintf(stderr, "\n"); }
     return n;
   }
   int replica_comm_send(char *buf, int len, int dst) override
   {
+    if (getenv("C14_DEBUG")) { fprintf(stderr, "[w%d step %ld] send to %d len %d:", g_index, (long) cvm::step_absolute(), dst, len); for (int k = 0; k < len / 8; k++) fprintf(stderr, " %ld/%g", ((long *) buf)[k], ((double *) buf)[k]); fprintf(stderr, "\n"); }
     wr(g_sock, "S" + std::to_string(dst) + " " + std::string(buf, len));
     std::string r;
     if (!rd(g_sock, r, 600) || r != "A") _exit(73);
@@ -131,6 +133,21 @@ static void walker_main(WalkerSpec const &w, int index, int nrep, int sock)
         for (int part = 0; part < 2; part++) {
           colvar_grid_count *sc = part == 0 ? a->samples.get() : a->local_samples.get();
           colvar_grid_gradient *gr = part == 0 ? a->gradients.get() : a->local_gradients.get();
+          for (int b = 0; b < n; b++) {
+            std::vector<int> ix(1, b);
+            o += std::to_string(sc ? (long) sc->value(ix) : -1) + " " + num(gr ? gr->value(ix) : 0.0) + " ";
+          }
+        }
+      }
+      wr(sock, "V" + o);
+    } else if (cmd[0] == 'G') {  // CZAR data: own z grids, then replica 0's global z grids
+      colvarbias_abf *a = dynamic_cast<colvarbias_abf *>(px->bias("a"));
+      std::string o;
+      if (a && a->z_samples) {
+        int n = a->z_samples->number_of_points(0);
+        for (int part = 0; part < 2; part++) {
+          colvar_grid_count *sc = part == 0 ? a->z_samples.get() : a->global_z_samples.get();
+          colvar_grid_gradient *gr = part == 0 ? a->z_gradients.get() : a->global_z_gradients.get();
           for (int b = 0; b < n; b++) {
             std::vector<int> ix(1, b);
             o += std::to_string(sc ? (long) sc->value(ix) : -1) + " " + num(gr ? gr->value(ix) : 0.0) + " ";
@@ -299,9 +316,10 @@ struct Controller {
 static const double BINV[2] = {1.2, 1.7};  // grid [1,3] width 0.5: bins 0 and 1
 static const double FRC[2] = {-1.0, 2.0};
 
-static std::string abf_conf(int freq)
+static std::string abf_conf(int freq, bool czar = false)
 {
-  return "colvar {\n name d\n width 0.5\n lowerBoundary 1.0\n upperBoundary 3.0\n distance {\n group1 { atomNumbers 1 }\n group2 { atomNumbers 2 }\n }\n}\n"
+  return std::string("colvar {\n name d\n width 0.5\n lowerBoundary 1.0\n upperBoundary 3.0\n") +
+         (czar ? " extendedLagrangian on\n extendedFluctuation 0.3\n extendedTimeConstant 40.0\n" : "") + " distance {\n group1 { atomNumbers 1 }\n group2 { atomNumbers 2 }\n }\n}\n"
          "abf {\n name a\n colvars d\n fullSamples 1\n shared on\n sharedFreq " + std::to_string(freq) + "\n outputFreq " + std::to_string(freq) + "\n}\n";
 }
 
@@ -312,6 +330,7 @@ struct AbfCase {
   std::vector<std::vector<int>> word;  // per walker per step: letter = bin*2 + force
   int bound;            // max deviations from the default order
   int rstep = 0;        // exchange step after which all walkers stop and restart (0 = the first one)
+  bool czar = false;    // extended-Lagrangian variable: the CZAR data are gathered on replica 0 when the output is written (end of run)
   int stop_step() const { return rstep ? rstep : freq; }
 };
 
@@ -345,7 +364,8 @@ static AbfOutcome abf_execute(AbfCase const &c, std::vector<int> const &prefix)
   Controller ctl;
   ctl.rendezvous = c.rendezvous;
   std::vector<WalkerSpec> specs(c.n);
-  for (int i = 0; i < c.n; i++) { specs[i].conf = abf_conf(c.freq); }
+  for (int i = 0; i < c.n; i++) { specs[i].conf = abf_conf(c.freq, c.czar); specs[i].out_prefix = "abf_w" + std::to_string(i); if (c.czar) specs[i].temperature = 300.0; }
+  std::vector<bool> ended(c.n, false);
   ctl.spawn(specs);
   for (int i = 0; i < c.n; i++) { ctl.w[i].next_step = 0; ctl.w[i].last_step = c.restart_walker >= 0 ? c.stop_step() : c.L - 1; }
   std::vector<bool> restarted(c.n, false);
@@ -365,6 +385,7 @@ static AbfOutcome abf_execute(AbfCase const &c, std::vector<int> const &prefix)
           int stt; waitpid(ctl.w[i].pid, &stt, 0);
           WalkerSpec sp;
           sp.conf = abf_conf(c.freq);
+          sp.out_prefix = "abf_w" + std::to_string(i);
           sp.state = st;
           sp.state_is_binary = (c.restart_walker == 2);
           if (c.restart_walker == 3) {
@@ -386,9 +407,11 @@ static AbfOutcome abf_execute(AbfCase const &c, std::vector<int> const &prefix)
     for (int i = 0; i < c.n; i++) if (ctl.w[i].st == W_IDLE && ctl.w[i].next_step <= ctl.w[i].last_step) acts.push_back({0, i});
     for (int i = 0; i < c.n; i++) if (ctl.can_deliver(i)) acts.push_back({1, i});
     if (ctl.all_at_barrier()) acts.push_back({2, 0});
+    if (c.czar) for (int i = 0; i < c.n; i++) if (ctl.w[i].st == W_IDLE && ctl.w[i].next_step > ctl.w[i].last_step && !ended[i]) acts.push_back({3, i});
     if (acts.empty()) {
       bool fin = true;
       for (auto &o : ctl.w) if (!(o.st == W_IDLE && o.next_step > o.last_step)) fin = false;
+      if (fin && c.czar) for (int i = 0; i < c.n; i++) if (!ended[i]) fin = false;
       if (fin && (c.restart_walker < 0 || restarted[0])) { out.done = true; break; }
       if (fin) continue;
       out.problem = "deadlock: no enabled action; walker states:";
@@ -408,10 +431,37 @@ static AbfOutcome abf_execute(AbfCase const &c, std::vector<int> const &prefix)
       int letter = c.word[a.i][s];
       ctl.start_step(a.i, s, BINV[letter / 2], FRC[letter % 2]);
     } else if (a.kind == 1) ctl.deliver(a.i);
+    else if (a.kind == 3) { ended[a.i] = true; wr(ctl.w[a.i].fd, "N"); ctl.w[a.i].st = W_RUNNING; ctl.pump(a.i); }
     else ctl.release_barrier();
   }
   if (!ctl.fatal.empty() && out.problem.empty()) { out.problem = ctl.fatal; out.sig = "walker-died-or-hung"; }
-  if (out.done) {
+  if (out.done && c.czar) {
+    // union oracle: replica 0's gathered z data = sum of every walker's own z data (counted once each)
+    std::vector<long> sum_n(4, 0), glob_n(4, -1);
+    std::vector<double> sum_g(4, 0.0), glob_g(4, 0.0);
+    long total = 0;
+    for (int i = 0; i < c.n && out.problem.empty(); i++) {
+      if (ctl.w[i].errors) { out.problem = "walker " + std::to_string(i) + " reported errors: " + ctl.w[i].errtxt; out.sig = "error-during-sharing"; break; }
+      std::string d = ctl.query(i, "G");
+      out.data += d + "|";
+      std::istringstream is(d);
+      for (int part = 0; part < 2; part++)
+        for (int b = 0; b < 4; b++) {
+          long k = -2; std::string g;
+          is >> k >> g;
+          if (part == 0) { sum_n[b] += k; sum_g[b] += atof(g.c_str()); total += k; }
+          else if (i == 0) { glob_n[b] = k; glob_g[b] = atof(g.c_str()); }
+        }
+    }
+    for (int b = 0; b < 4 && out.problem.empty(); b++)
+      if (glob_n[b] != sum_n[b] || !close_rel(glob_g[b], sum_g[b], std::max(1.0, std::fabs(sum_g[b])), 1e-10)) {
+        out.problem = "CZAR data gathered on replica 0, bin " + std::to_string(b) + ": count " + std::to_string(glob_n[b]) + " (sum over walkers " + std::to_string(sum_n[b]) +
+                      "), gradient sum " + num(glob_g[b]) + " (sum over walkers " + num(sum_g[b]) + "); per-walker own z data then global: " + out.data;
+        out.sig = "czar-data-on-replica-0-differs-from-sum-over-walkers";
+      }
+    if (out.problem.empty() && total == 0) { out.problem = "HARNESS: no CZAR samples collected"; out.sig = "harness"; }
+  }
+  if (out.done && !c.czar) {
     for (int i = 0; i < c.n && out.problem.empty(); i++) {
       if (ctl.w[i].errors) { out.problem = "walker " + std::to_string(i) + " reported errors: " + ctl.w[i].errtxt; out.sig = "error-during-sharing"; break; }
       std::string d = ctl.query(i, "Q");
@@ -659,6 +709,11 @@ int main(int argc, char **argv)
     abf.push_back({2, 4, 1, true, 1, w2, 2, 2});                      // ... restart after the second exchange
     abf.push_back({2, 7, 3, false, -1, w4, thorough ? 3 : 2});        // sharedFreq 3, two exchanges
     abf.push_back({2, 7, 2, true, 2, w4, thorough ? 2 : 1, 4});       // restart after the second of three exchanges
+    {
+      AbfCase z{2, 5, 2, false, -1, w4, thorough ? 3 : 2}; z.czar = true; abf.push_back(z);
+      std::vector<std::vector<int>> wz = {{0, 1, 2, 3, 0, 2, 1}, {3, 2, 0, 1, 1, 0, 3}, {2, 3, 3, 2, 2, 3, 2}, {0, 0, 1, 0, 1, 1, 0}};
+      AbfCase z3{3, 4, 2, true, -1, wz, thorough ? 2 : 1}; z3.czar = true; abf.push_back(z3); z3.rendezvous = false; abf.push_back(z3);
+    }
     if (thorough) {
       abf.push_back({4, 4, 2, false, -1, w4, 1});                     // four walkers
       abf.push_back({4, 4, 2, true, 1, w4, 1});
@@ -709,6 +764,10 @@ int main(int argc, char **argv)
     }
   }
 
+  if (getenv("C14_DEBUG")) {
+    for (auto &c : abf) if (c.czar && c.n == 3 && !c.rendezvous) { std::vector<int> none; AbfOutcome o = abf_execute(c, none); fprintf(stderr, "problem: %s\n", o.problem.c_str()); }
+    return 0;
+  }
   Result total;
   size_t njobs = abf.size() + mj.size();
   bool ok = run_sharded(args.jobs, [&](int shard, int nsh, Result &r) {
@@ -717,7 +776,7 @@ int main(int argc, char **argv)
     for (size_t j = shard; j < njobs; j += nsh) {
       if (j < abf.size()) {
         AbfCase const &c = abf[j];
-        std::string cj = "{\"part\":\"shared ABF\",\"walkers\":" + std::to_string(c.n) + ",\"steps\":" + std::to_string(c.L) + ",\"sharedFreq\":" + std::to_string(c.freq) +
+        std::string cj = "{\"part\":\"shared ABF\",\"walkers\":" + std::to_string(c.n) + ",\"steps\":" + std::to_string(c.L) + ",\"sharedFreq\":" + std::to_string(c.freq) + (c.czar ? ",\"variable\":\"extended-Lagrangian (CZAR gathered at end of run)\"" : "") +
                          ",\"send\":\"" + (c.rendezvous ? "rendezvous" : "buffered") + "\",\"restart\":\"" + (c.restart_walker < 0 ? "none" : (c.restart_walker == 2 ? "all walkers, binary state" : (c.restart_walker == 3 ? "all walkers, text state without last-exchange record" : "all walkers, text state"))) + "\",\"restart_after_step\":" + std::to_string(c.restart_walker >= 0 ? c.stop_step() : -1) + ",\"deviation_bound\":" + std::to_string(c.bound) + "}";
         bool stop = false;
         long nexec = 0;
